@@ -48,6 +48,7 @@ fn main() {
                 "exec-memops" => exec::gen_memops(&mut w, thorough, seed),
                 "exec-random" => exec::gen_random(&mut w, thorough, seed),
                 "exec-calls" => exec::gen_calls(&mut w, thorough, seed),
+                "exec-memprobe" => exec::gen_memprobe(&mut w, thorough, seed),
                 "exec-long" => exec::gen_long(&mut w, thorough, seed),
                 _ => { eprintln!("unknown suite {suite}"); std::process::exit(2); }
             }
